@@ -22,18 +22,20 @@ type Job struct {
 	Replay   string `json:"replay"` // replay mode: scenario file
 	MaxFound int    `json:"max_found"`
 	Worker   int    `json:"worker"`
+	Progress string `json:"progress,omitempty"` // file that receives the index of the run in progress
 }
 
 // Result is what a worker writes to Job.Out.
 type Result struct {
-	Property     string           `json:"property"`
-	Stats        *Stats           `json:"stats"`
-	Fingerprints []uint64         `json:"fingerprints"`
-	Found        []Found          `json:"found"`
-	CapHit       bool             `json:"cap_hit"`
-	RunHashes    map[int64]uint64 `json:"run_hashes,omitempty"`
-	WallS        float64          `json:"wall_s"`
-	Error        string           `json:"error,omitempty"`
+	Property     string                    `json:"property"`
+	Stats        *Stats                    `json:"stats"`
+	Fingerprints []uint64                  `json:"fingerprints"`
+	Found        []Found                   `json:"found"`
+	CapHit       bool                      `json:"cap_hit"`
+	RunHashes    map[int64]uint64          `json:"run_hashes,omitempty"`
+	Scenarios    map[int64]json.RawMessage `json:"scenarios,omitempty"`
+	WallS        float64                   `json:"wall_s"`
+	Error        string                    `json:"error,omitempty"`
 }
 
 // ReplayFile is the on-disk form of a violation (DESIGN appendix D).
@@ -121,6 +123,14 @@ func WorkerMain(t *testing.T, worlds map[string]World, selftest func() error) {
 		}
 		write()
 		return
+	case "gen":
+		res.Scenarios = map[int64]json.RawMessage{}
+		for i := job.From; i < job.To; i += max64(job.Stride, 1) {
+			js, _ := json.Marshal(w.Gen(RunSeed(job.Seed, i), job.Tier))
+			res.Scenarios[i] = js
+		}
+		write()
+		return
 	case "hashes":
 		res.RunHashes = map[int64]uint64{}
 		for i := job.From; i < job.To; i += max64(job.Stride, 1) {
@@ -156,6 +166,9 @@ func WorkerMain(t *testing.T, worlds map[string]World, selftest func() error) {
 		}
 		seed := RunSeed(job.Seed, i)
 		sc := w.Gen(seed, job.Tier)
+		if job.Progress != "" {
+			os.WriteFile(job.Progress, []byte(fmt.Sprint(i)), 0o644)
+		}
 		res.Stats.Runs++
 		vs := SafeRun(env, sc, res.Stats)
 		if len(vs) == 0 {
